@@ -156,6 +156,8 @@ type executor struct {
 	neighbour     http.Handler // a second file server of the same process with another root
 	neighbourRoot string
 
+	gate *gatedBody // set while an overlapping upload is being started (overlap.go)
+
 	bk     *bkCore // recording backend of a dav server (nil for the plain file server)
 	calBk  *calBackend
 	cardBk *cardBackend
@@ -316,7 +318,9 @@ func (ex *executor) run() {
 			time.Sleep(time.Duration(st.DelayNS))
 		}
 		ex.res.Stats.Steps++
-		if st.Call != nil {
+		if len(st.During) > 0 {
+			ex.overlapStep(i, st)
+		} else if st.Call != nil {
 			ex.callStep(i, st)
 		} else if st.API != nil {
 			ex.apiStep(i, st)
@@ -462,7 +466,10 @@ func (ex *executor) serve(idx int, st *Step) *Exchange {
 	if st.Chunk < 0 {
 		body.Rng = rt.NewRand(rt.Mix(ex.plan.RunSeed, uint64(idx), 0xb0d1))
 	}
-	if len(st.Body) == 0 && bf == nil {
+	if g := ex.gate; g != nil {
+		g.FaultBody = body
+		req.Body = g
+	} else if len(st.Body) == 0 && bf == nil {
 		req.Body = http.NoBody
 	} else {
 		req.Body = body
